@@ -2491,6 +2491,12 @@ func (e *Engine) CreateIterator(ctx context.Context, measurement string, opt que
 	}
 
 	if call, ok := opt.Expr.(*influxql.Call); ok {
+		// The expression of a request from another node has not been through
+		// the query compiler.
+		if len(call.Args) == 0 {
+			return nil, fmt.Errorf("invalid number of arguments for %s, expected at least 1, got 0", call.Name)
+		}
+
 		if opt.Interval.IsZero() {
 			if call.Name == "first" || call.Name == "last" {
 				refOpt := opt
